@@ -1,18 +1,29 @@
 """C19 - The software demodulator recovers cleanly modulated frames."""
 from hypothesis import strategies as st
 
-import pyModeS as pms
-from pyModeS.extra import rtlreader
+from vlib import variants
+variants.fake_rtlsdr()   # before the reader module is imported
+
+import pyModeS as pms  # noqa: E402
+from pyModeS.extra import rtlreader  # noqa: E402
 from ref import crc24, frames
 from vlib import gen
-from vlib.core import Leg, call
+from vlib.core import Leg, call as _call
+import contextlib
+import io
+
+
+def call(f, *a, **k):
+    """library calls with anything the reader prints (debug=True readers trace every frame) swallowed"""
+    with contextlib.redirect_stdout(io.StringIO()):
+        return _call(f, *a, **k)
 
 PROPERTY = "C19"
 RULE = ("1-3 sample buffers per case, 1-4 frames per buffer: DF17 with correct parity, DF20/21 (any AP), DF4/5/11, plus DF17 with 1-3 flipped bits (must be "
         "absent); pulse-position modulation at 2 samples/us behind the 8 us preamble, frame amplitude A in [0.3,1.4] with +-10% per-pulse jitter clipped to "
         "that range, any start offset (both sample parities), gaps >= 240 samples and a >= 400-sample noise-only lead; every non-pulse sample is noise "
         "bounded by n = min(rho * A_min, 0.19) with rho in [0, 0.316) drawn per buffer (every pulse >= 10 dB above every noise sample of its buffer), shapes zero/constant/uniform/two-level; "
-        "reader created with object.__new__(RtlReader); consecutive _process_buffer() calls share the running noise floor. Oracle: the returned hex strings "
+        "reader created by RtlReader() / RtlReader(debug=True) with a stand-in for the missing rtlsdr module; consecutive _process_buffer() calls share the running noise floor. Oracle: the returned hex strings "
         "are exactly the admissible transmitted frames, in order, upper case, right length; every returned DF17 has reference CRC 0. "
         "non-trivial = >= 2 frames of different length, odd start offset, rho > 0.1, or a corrupted DF17 present"
         ' Also: the noise level is drawn per buffer, the last frame of a buffer may end anywhere up to the buffer end, and complex IQ samples of arbitrary phase are delivered through _read_callback in read-size pieces (leg iq_callback); buffers whose first 6.5-9 ms are packed with strong replies every 400 samples before a quiet stretch and weak frames, and buffers longer than buffer_size (direct call, or two equal reads that overshoot it) with a frame across sample index buffer_size (leg long_buffers).')
@@ -113,14 +124,27 @@ def s_case(draw):
                      "items": items,
                      "shape": draw(st.sampled_from(["zero", "constant", "uniform", "uniform", "two-level"])), "nseed": draw(gen.ubits(32)),
                      "rho": draw(st.one_of(gen.ufloat(0.0, 0.316), gen.ufloat(0.2, 0.316), st.sampled_from([0.0, 0.0, 0.25, 0.3159])))})
-    return {"buffers": bufs, "rho": draw(st.one_of(gen.ufloat(0.0, 0.316), gen.ufloat(0.2, 0.316), st.sampled_from([0.0, 0.25, 0.3159])))}
+    # a frame received correctly and then again with errors in its parity field only (1-3 flips inside the last 24 bits)
+    if draw(gen.uint(0, 2)) == 0:
+        good = [(bi, ii) for bi, bf in enumerate(bufs) for ii, it in enumerate(bf["items"]) if admissible(it["msg"]) and len(it["msg"]) == 28 and int(it["msg"][:2], 16) >> 3 == 17]
+        if good:
+            bi, ii = good[draw(gen.uint(0, len(good) - 1))]
+            v = int(bufs[bi]["items"][ii]["msg"], 16)
+            for bpos in draw(st.lists(gen.uint(0, 23), min_size=1, max_size=3, unique=True)):
+                v ^= 1 << bpos
+            twin = dict(bufs[bi]["items"][ii], msg="%028X" % v, gap=draw(gen.uint(240, 500)), jseed=draw(gen.ubits(32)))
+            tb = draw(gen.uint(bi, len(bufs) - 1))
+            if tb == bi:
+                bufs[bi]["items"].insert(ii + 1, twin)
+                if bufs[bi]["items"][ii]["gap"] < 240:
+                    bufs[bi]["items"][ii] = dict(bufs[bi]["items"][ii], gap=240)
+            else:
+                bufs[tb]["items"].insert(0, twin)
+    return {"debug": draw(gen.uint(0, 3)) == 0, "buffers": bufs, "rho": draw(st.one_of(gen.ufloat(0.0, 0.316), gen.ufloat(0.2, 0.316), st.sampled_from([0.0, 0.25, 0.3159])))}
 
 
 def chk_case(case, note):
-    rd = object.__new__(rtlreader.RtlReader)
-    rd.signal_buffer = []
-    rd.debug = False
-    rd.noise_floor = 1e6
+    rd = variants.make_reader(rtlreader.RtlReader, bool(case.get("debug")))   # RtlReader(debug=True) traces every frame it looks at; what it returns must not change
     lens, odd, bad = set(), False, False
     for bi, buf in enumerate(case["buffers"]):
         # every buffer has its own noise level: each pulse of the buffer is >= 10 dB above each of its noise samples
@@ -147,6 +171,8 @@ def chk_case(case, note):
             bad = bad or not admissible(it["msg"])
             pos += 16 + len(it["msg"]) * 8 + it["gap"]
     note.cls("buffers%d" % len(case["buffers"]))
+    if case.get("debug"):
+        note.cls("debug-reader")
     rhos = [b.get("rho", case["rho"]) for b in case["buffers"]]
     if max(rhos) > 0.2:
         note.cls("noise-within-14dB")
@@ -184,8 +210,8 @@ def chk_iq(case, note):
     amp = amp + [noise_sample(case["shape"], nlevel, case["nseed"], len(amp) + k) for k in range(size - len(amp))]
     phase = np.array([unit(case["pseed"], k) for k in range(0, size, 97)])
     iq = np.array(amp) * np.exp(2j * np.pi * np.resize(phase, size))
-    rd = object.__new__(_Collect)
-    rd.signal_buffer, rd.debug, rd.noise_floor, rd.got = [], False, 1e6, []
+    rd = variants.make_reader(_Collect)
+    rd.got = []
     pieces = np.array_split(iq, case["chunks"])
     for k, p in enumerate(pieces):
         r = call(rd._read_callback, p, None)
@@ -254,8 +280,8 @@ def chk_long(case, note):
     if case["kind"] == "oversize-iq":
         phase = np.resize(np.array([unit(case["pseed"], k) for k in range(2048)]), len(samples))
         iq = np.array(samples) * np.exp(2j * np.pi * phase)
-        rd = object.__new__(_Collect)
-        rd.signal_buffer, rd.debug, rd.noise_floor, rd.got = [], False, 1e6, []
+        rd = variants.make_reader(_Collect)
+        rd.got = []
         half = len(iq) // 2          # two reads of the same size, the second one takes the buffer beyond buffer_size
         for piece in (iq[:half], iq[half:]):
             r = call(rd._read_callback, piece, None)
@@ -263,8 +289,8 @@ def chk_long(case, note):
                 return "_read_callback raised %r" % (r[1:],)
         got = rd.got
     else:
-        rd = object.__new__(rtlreader.RtlReader)
-        rd.signal_buffer, rd.debug, rd.noise_floor = samples, False, 1e6
+        rd = variants.make_reader(rtlreader.RtlReader)
+        rd.signal_buffer = samples
         r = call(rd._process_buffer)
         if r[0] != "ok":
             return "_process_buffer raised %r on a buffer of %d samples" % (r[1:], len(samples))
